@@ -152,7 +152,7 @@ impl ResourceStorage {
     |resource| {
 //@ WITH
     |resource: &Resource| -> (o: Option<String>)
-            ensures o is Some <==> (resource.permission.0 == 0 && redirectable(resource.kind) && resource.kind is Mime)
+            ensures o is Some <==> (resource.permission.0 == 0 && redirectable(resource.kind) && resource.kind is Mime) // OBL C13.redirect_resource.gate
     {
 //@ ENDSUBST
 //@ SUBST R6
